@@ -244,7 +244,7 @@ def r83(ctx):
     }
     sites = [s for s in R.call_sites(p, target) if not R.is_test_util(R.owner_name(p, s[0])) or
              R.owner_name(p, s[0]) == f"{NODE}::check_and_sign_onchain_tx"]
-    ctx.floor("R8.3", "unchecked_sign_onchain_tx call sites", len(sites), 2)
+    ctx.floor("R8.3", "unchecked_sign_onchain_tx call sites", len(sites), 1)
     for b, bi, c in sites:
         on = R.owner_name(p, b)
         if on not in allowed:
